@@ -87,7 +87,7 @@ def h_cl(B, dom_kind, nsamples, model, named):
         dom = ift.DomainTuple.make(U(N))
         keys = [None]
     else:
-        dom = ift.MultiDomain.make({"a": U(N), "b": U(1)})
+        dom = ift.MultiDomain.make({"a": U(N), "b": ift.DomainTuple.scalar_domain()})
         keys = ["a", "b"]
 
     def fld(name, d):
@@ -104,7 +104,8 @@ def h_cl(B, dom_kind, nsamples, model, named):
     if dom_kind == "single":
         op = ift.makeOp(g) if model == "diag" else ift.ScalingOperator(dom, 1.)
     else:
-        op = ift.makeOp(g) @ ift.FieldAdapter(tgt, "a") if model == "diag" else ift.FieldAdapter(tgt, "a")
+        bc = ift.ContractionOperator(tgt, None).adjoint.ducktape("b")      # the scalar key b is added to every pixel
+        op = (ift.makeOp(g) @ ift.FieldAdapter(tgt, "a") if model == "diag" else ift.FieldAdapter(tgt, "a")) + bc
     lh = ift.GaussianEnergy(data=d, inverse_covariance=icov) @ op
     if named:
         lh.name = "lh"
@@ -114,6 +115,12 @@ def h_cl(B, dom_kind, nsamples, model, named):
             samples.append(fld(f"s{i}", dom))
         else:
             samples.append(ift.MultiField.from_dict({k: fld(f"s{i}{k}", dom[k]) for k in dom.keys()}))
+    # entries of the first sample may or may not vanish (every combination is a path); the other samples' entries and
+    # residuals are assumed non-zero to keep the number of paths small
+    for s_ in samples[1:]:
+        for k in keys:
+            B.assume_all([~(v == 0) for v in np.asarray((s_ if k is None else s_[k]).val.val, dtype=object).reshape(-1)])
+        B.assume_all([~(v == 0) for v in np.asarray(lh.normalized_residual(s_).val.val, dtype=object).reshape(-1)])
     sl = ift.SampleList(samples)
     _, res = ex.minisanity(lh, sl, terminal_colors=False, return_values=True)
     # reference: the likelihood's own normalized residual of every sample, entry by entry
@@ -142,8 +149,10 @@ def h_cl(B, dom_kind, nsamples, model, named):
 def h_re(B, which, nsamples, func):
     from jax import core as jcore
     J = jft()
-    pos = {"a": B.reals("pa", (2,)), "b": B.reals("pb", (1,))}
-    smp = {"a": B.reals("sa", (nsamples, 2)), "b": B.reals("sb", (nsamples, 1))}
+    cplx = func == "complex"
+    mk = (lambda nm, shp: B.complexes(nm, shp)) if cplx else (lambda nm, shp: B.reals(nm, shp))
+    pos = {"a": mk("pa", (2,)), "b": mk("pb", (1,))}
+    smp = {"a": mk("sa", (nsamples, 2)), "b": mk("sb", (nsamples, 1))}
     d = B.reals("d", (2,))
     w = B.reals("w", (2,))
     B.assume_all([t > 0 for t in w.reshape(-1)])
@@ -181,6 +190,15 @@ def h_re(B, which, nsamples, func):
         return
     for k, size in (("a", 2), ("b", 1)):
         rows = [[pos[k][j] + smp[k][i][j] for j in range(size)] for i in range(nsamples)]
+        if cplx:
+            # documented: a complex entry counts as two degrees of freedom; the mean stays the plain average over entries
+            n = len(rows)
+            m = sum((sum(r, 0) / size for r in rows), 0) / n
+            c = sum((sum(((v.conjugate() * v).real for v in r), 0) / (2 * size) for r in rows), 0) / n
+            B.eq(f"JAX complex latent {k}: mean == sample average of sum x / size", _flat(out[k][0]), [m])
+            B.eq(f"JAX complex latent {k}: reduced chi^2 == sample average of sum |x|^2 / (2 size)", _flat(out[k][1]), [c])
+            B.is_true(f"JAX complex latent {k}: #dof == 2 size", int(np.asarray(out[k][2]).reshape(-1)[0]) == 2 * size)
+            continue
         m, c, nd = ref(rows)
         B.eq(f"JAX latent {k}: mean == sample average of sum x / size", _flat(out[k][0]), [m])
         B.eq(f"JAX latent {k}: reduced chi^2 == sample average of sum x^2 / size", _flat(out[k][1]), [c])
@@ -189,12 +207,14 @@ def h_re(B, which, nsamples, func):
 
 def scenarios(tier, seed):
     quick = [("cl", {"dom_kind": "single", "nsamples": 2, "model": "diag", "named": False}),
-             ("cl", {"dom_kind": "multi", "nsamples": 2, "model": "id", "named": True}),
+             ("cl", {"dom_kind": "multi", "nsamples": 1, "model": "id", "named": True}),
              ("cl", {"dom_kind": "single", "nsamples": 1, "model": "id", "named": True}),
              ("re", {"which": "lmap", "nsamples": 2, "func": "none"}),
              ("re", {"which": "vmap", "nsamples": 2, "func": "residual"}),
-             ("re", {"which": "smap", "nsamples": 2, "func": "residual"})]
-    thorough = [("cl", {"dom_kind": "multi", "nsamples": 3, "model": "diag", "named": False}),
+             ("re", {"which": "smap", "nsamples": 2, "func": "residual"}),
+             ("re", {"which": "vmap", "nsamples": 2, "func": "complex"})]
+    thorough = [("cl", {"dom_kind": "multi", "nsamples": 2, "model": "id", "named": True}),
+                ("cl", {"dom_kind": "multi", "nsamples": 3, "model": "diag", "named": False}),
                 ("cl", {"dom_kind": "single", "nsamples": 3, "model": "diag", "named": True}),
                 ("re", {"which": "lmap", "nsamples": 3, "func": "residual"}),
                 ("re", {"which": "smap", "nsamples": 3, "func": "none"}),
@@ -219,7 +239,7 @@ META = {
     "bounds": {"samples": "1-2 (3 thorough)", "entries per key": "1-2"},
     "stubs": ["nifty.cl.extra._tableentries (string formatting of the table) returns '' in the symbolic run",
               "np.sum over symbolic truth values counts by path decisions"],
-    "outside": ["NaN entries (no symbolic NaN): the NaN-ignoring branch is exercised with zero entries only", "complex residuals",
+    "outside": ["NaN entries (no symbolic NaN): the NaN-ignoring branch is exercised with zero entries only", "complex residuals in the classic diagnostic",
                 "the std columns (classic: unbiased, JAX: population standard deviation)", "the formatted table"],
-    "assumptions": ["inverse noise covariance > 0"],
+    "assumptions": ["inverse noise covariance > 0", "only the first sample's entries / residuals may vanish (all combinations explored); the others are non-zero"],
 }
